@@ -24,6 +24,13 @@ structure RefWF (r : RefDS) : Prop where
           r.kstream.err = r.stream.err ∧ r.kstream.vals.map (·.2) = r.stream.vals ∧
           r.kstream.vals.map (·.1) = ks.take r.kstream.vals.length
 
+/-- (continued) two bookkeeping facts that the stage lemmas need -/
+structure RefWF2 (r : RefDS) : Prop extends RefWF r where
+  /-- an indexable dataset reports the number of its positions -/
+  lenOuts : r.indexable = true → r.len = .ok r.outs.length
+  /-- a key table has one key per position -/
+  keysLen : r.indexable = true → ∀ ks, r.keys = .ok ks → ks.length = r.outs.length
+
 theorem ofOuts_map_ok {α} (l : List α) : Stream.ofOuts (l.map .ok) = ⟨l, none⟩ := by
   induction l with
   | nil => rfl
@@ -68,5 +75,20 @@ theorem wf_dictSrc (kvs : List (String × Val)) : RefWF (Ref.dictSrc kvs) where
     subst h
     simp only [Ref.dictSrc, Stream.ofList, true_and]
     rw [← List.length_map (f := fun x : String × Val => x.1), List.take_length]
+
+theorem wf2_listSrc (xs : List Val) : RefWF2 (Ref.listSrc xs) where
+  toRefWF := wf_listSrc xs
+  lenOuts := by intro _; simp [Ref.listSrc]
+  keysLen := by intro _ ks h; cases h
+
+theorem wf2_dictSrc (kvs : List (String × Val)) : RefWF2 (Ref.dictSrc kvs) where
+  toRefWF := wf_dictSrc kvs
+  lenOuts := by intro _; simp [Ref.dictSrc]
+  keysLen := by
+    intro _ ks h
+    simp only [Ref.dictSrc] at h
+    injection h with h
+    subst h
+    simp [Ref.dictSrc]
 
 end LazyDs
